@@ -1,0 +1,116 @@
+//go:build verif
+
+package lsm
+
+import (
+	"errors"
+
+	"github.com/feichai0017/NoKV/kv"
+	"github.com/feichai0017/NoKV/utils"
+)
+
+// VerifTable is a stand-alone SST table (build tag verif): built from given entries with the
+// production tableBuilder, opened with the production openTable against a private, otherwise
+// empty levelManager (options + caches only), and re-openable from its file.
+type VerifTable struct {
+	lm   *levelManager
+	t    *table
+	name string
+	opt  *Options
+}
+
+func verifLevelManager(opt *Options) *levelManager {
+	return &levelManager{opt: opt, cache: newCache(opt)}
+}
+
+// VerifBuildTable builds <dir>/<fid>.sst from entries (in the given order) and opens it.
+func VerifBuildTable(dir string, fid uint64, blockSize int, bloomFP float64, entries []*kv.Entry) (*VerifTable, error) {
+	if len(entries) == 0 {
+		return nil, errors.New("verif: empty entry set")
+	}
+	opt := &Options{WorkDir: dir, BlockSize: blockSize, BloomFalsePositive: bloomFP, SSTableMaxSz: 64 << 20,
+		BlockCacheSize: 16, BloomCacheSize: 16}
+	lm := verifLevelManager(opt)
+	b := newTableBuiler(opt)
+	for _, e := range entries {
+		b.AddKey(e)
+	}
+	name := utils.FileNameSSTable(dir, fid)
+	t := openTable(lm, name, b)
+	if t == nil {
+		return nil, errors.New("verif: openTable failed")
+	}
+	return &VerifTable{lm: lm, t: t, name: name, opt: opt}, nil
+}
+
+// Reopen drops the handle and every cache and opens the table again from its file.
+func (v *VerifTable) Reopen() error {
+	if err := v.t.closeHandle(); err != nil {
+		return err
+	}
+	_ = v.lm.cache.close()
+	v.lm = verifLevelManager(v.opt)
+	t := openTable(v.lm, v.name, nil)
+	if t == nil {
+		return errors.New("verif: reopen failed")
+	}
+	v.t = t
+	return nil
+}
+
+// Search is table.Search with a fresh running maximum version (0).
+func (v *VerifTable) Search(key []byte) (*kv.Entry, error) {
+	var maxVs uint64
+	return v.t.Search(key, &maxVs)
+}
+
+// Iterate positions a table iterator (Rewind, or Seek when seek != nil) and collects up to
+// limit entries (limit < 0: all) as copies.
+func (v *VerifTable) Iterate(asc bool, seek []byte, limit int) []*kv.Entry {
+	it := v.t.NewIterator(&utils.Options{IsAsc: asc})
+	defer func() { _ = it.Close() }()
+	if seek != nil {
+		it.Seek(seek)
+	} else {
+		it.Rewind()
+	}
+	var out []*kv.Entry
+	for ; it.Valid() && (limit < 0 || len(out) < limit); it.Next() {
+		e := it.Item().Entry()
+		out = append(out, &kv.Entry{Key: kv.SafeCopy(nil, e.Key), Value: kv.SafeCopy(nil, e.Value), Meta: e.Meta, ExpiresAt: e.ExpiresAt})
+		if len(out) > 1<<20 {
+			break
+		}
+	}
+	return out
+}
+
+// BlockBaseKeys returns the base key of every block as recorded in the table index.
+func (v *VerifTable) BlockBaseKeys() [][]byte {
+	idx := v.t.index()
+	var out [][]byte
+	for _, o := range idx.GetOffsets() {
+		out = append(out, kv.SafeCopy(nil, o.GetKey()))
+	}
+	return out
+}
+
+// BloomMayContain probes the table's bloom filter with a user key; has=false when the table
+// carries no filter.
+func (v *VerifTable) BloomMayContain(userKey []byte) (may bool, has bool) {
+	idx := v.t.index()
+	f := utils.Filter(idx.GetBloomFilter())
+	if len(f) == 0 {
+		return true, false
+	}
+	return f.MayContainKey(userKey), true
+}
+
+// KeyCount is the number of entries recorded in the index.
+func (v *VerifTable) KeyCount() uint32 { return v.t.KeyCount() }
+
+// Close releases the handle without deleting the file.
+func (v *VerifTable) Close() {
+	_ = v.t.closeHandle()
+	_ = v.lm.cache.close()
+}
